@@ -17,6 +17,7 @@ package pipes
 
 //@ func (*Named).CreatePipe [C26 C19 C32]
 //@   requires n != nil && n.pipes != nil
+//@   modifies mapof(n.pipes)
 //@   ensures imp(old@lock1(n.pipes[name].Pipe) != nil, result != nil)
 //@   ensures imp(result == nil, n.pipes[name].Pipe != nil && n.pipes[name].Type == pipeType)
 
